@@ -984,3 +984,142 @@ Proof.
   - intros Hf. destruct (add_subcircuit_reject true C SC name conns e Hc Hf) as [-> HC]. simpl. unfold add_subcircuit. by rewrite HC.
   - simpl. unfold fill_blackbox. repeat case_match; simpl; intros [=]; done.
 Qed.
+(* ================================================================ add_blackbox: the pins of the new instance *)
+Section add_blackbox_pins.
+  Context (inst : string).
+  Let f := (λ (st : circuit * list string * outcome) (pt : string * gtype), match st with
+                  | (g, io, Done) => let '(g', o, nm) := add_g g (pin inst pt.1) pt.2 [] [] af_default in
+                                     (g', match o with Done => nm :: io | _ => io end, o)
+                  | _ => st end).
+  Lemma mkpins_done_prefix l st : (foldl f st l).2 = Done → st.2 = Done.
+  Proof.
+    revert st. induction l as [|q l IH]; simpl; [done|]. intros st Hd. specialize (IH _ Hd).
+    destruct st as [[g io] [|e]]; [done|]. simpl in IH. done.
+  Qed.
+  Lemma mkpins_ty_step st pt : att st.1.1 (f st pt).1.1 ∧ ((f st pt).2 = Done → ty (f st pt).1.1 (pin inst pt.1) = Some pt.2).
+  Proof.
+    destruct st as [[g io] o], pt as [p t]. unfold f. simpl. destruct o as [|e]; [|split; [apply att_refl|intros [=]]].
+    rewrite add_g_nil. set (n := pin inst p).
+    destruct (bool_decide (n ∈ dom g)) eqn:En; [simpl; split; [apply att_refl|intros [=]]|].
+    repeat (match goal with |- context [if ?b then (g, Fail ValueError, n) else _] => destruct b; [simpl; split; [apply att_refl|intros [=]]|] end).
+    apply bool_decide_eq_false in En. simpl. split.
+    - intros m i Hi. exists i. split; [|done]. rewrite lookup_insert_ne; [done|]. intros <-. apply En, elem_of_dom. eauto.
+    - intros _. unfold ty. by rewrite lookup_insert.
+  Qed.
+  Lemma mkpins_ty l st :
+    att st.1.1 (foldl f st l).1.1 ∧ ((foldl f st l).2 = Done → ∀ pt, pt ∈ l → ty (foldl f st l).1.1 (pin inst pt.1) = Some pt.2).
+  Proof.
+    revert st. induction l as [|pt l IH]; intros st; simpl.
+    - split; [apply att_refl|]. intros _ pt Hpt. by apply elem_of_nil in Hpt.
+    - destruct (mkpins_ty_step st pt) as [Ha Ht]. destruct (IH (f st pt)) as [Ha' Ht']. split; [eauto using att_trans|].
+      intros Hd pt' [->|Hin]%elem_of_cons; [|by apply Ht'].
+      eapply att_ty; [exact Ha'|]. apply Ht. by apply mkpins_done_prefix in Hd.
+  Qed.
+End add_blackbox_pins.
+
+Lemma add_blackbox_pins C d inst ins outs conns R :
+  closed (c_g C) → list_to_set ins = bb_in d → list_to_set outs = bb_out d →
+  pins_ok C R → pins_ok (add_blackbox C d inst ins outs conns).1 R.
+Proof.
+  intros Hc Hins Houts Hp.
+  destruct (add_blackbox C d inst ins outs conns).2 eqn:Eo.
+  2:{ destruct (add_blackbox_reject C d inst ins outs conns e Hc Hins Houts Eo) as [_ ->]. done. }
+  revert Eo. unfold add_blackbox. destruct (bool_decide (inst ∈ dom (c_bbs C))) eqn:Einst; [done|]. cbv zeta.
+  apply bool_decide_eq_false in Einst.
+  set (F := foldl _ (_, [], Done) _).
+  pose proof (mkpins_ty inst (((λ p, (p, BbIn)) <$> ins) ++ ((λ p, (p, BbOut)) <$> outs)) (c_g C, [], Done)) as Hspec.
+  change (foldl _ (c_g C, [], Done) _) with F in Hspec. destruct Hspec as [Ha Ht]. simpl in Ha.
+  destruct F as [[g io] o]. simpl in *. cbv beta iota.
+  destruct o as [|e0]; [|simpl; by destruct e0].
+  specialize (Ht eq_refl).
+  set (r := foldl _ (g, Done) conns).
+  assert (Hr : att g r.1).
+  { apply (foldl_inv (λ st : circuit * outcome, att g st.1)); [apply att_refl|].
+    intros [g0 o0] kv Hg0. simpl in *. destruct o0; [|done].
+    destruct (bool_decide (kv.1 ∈ bb_in d)); [eapply att_trans; [exact Hg0|apply connect_g_att]|].
+    destruct (bool_decide (kv.1 ∈ bb_out d)); [eapply att_trans; [exact Hg0|apply connect_g_att]|done]. }
+  destruct r as [gr o]. simpl in *. destruct o as [|[]]; simpl; try done. intros _.
+  unfold pins_ok. simpl. apply map_Forall_insert; [by apply not_elem_of_dom|]. split.
+  - split; intros p Hp'; right; eapply att_ty; try exact Hr.
+    + apply (Ht (p, BbIn)). apply elem_of_app. left. apply elem_of_list_fmap. exists p. split; [done|]. rewrite <- Hins in Hp'. by apply elem_of_list_to_set in Hp'.
+    + apply (Ht (p, BbOut)). apply elem_of_app. right. apply elem_of_list_fmap. exists p. split; [done|]. rewrite <- Houts in Hp'. by apply elem_of_list_to_set in Hp'.
+  - eapply map_Forall_impl; [exact Hp|]. simpl. intros inst' d' [H1 H2].
+    split; intros p Hp'; [destruct (H1 p Hp') as [?|Hty]|destruct (H2 p Hp') as [?|Hty]]; try (by left); right;
+      (eapply att_ty; [exact Hr|]; eapply att_ty; [exact Ha|done]).
+Qed.
+(* ================================================================ add_subcircuit: pins of old and imported instances *)
+Lemma pin_pre name b p : pin (pre name b) p = pre name (pin b p).
+Proof.
+  assert (Hassoc : ∀ a b c : string, (a ++ b) ++ c = a ++ (b ++ c)) by (intros a; induction a as [|ch a IH]; intros b0 c0; [done|]; change (String ch ((a ++ b0) ++ c0) = String ch (a ++ (b0 ++ c0))); by rewrite IH).
+  unfold pin, pre. by rewrite !Hassoc.
+Qed.
+
+Lemma add_subcircuit_pins strip C SC name conns R :
+  closed (c_g C) → pins_ok C R → pins_ok SC ∅ → pins_ok (add_subcircuit_gen strip C SC name conns).1 R.
+Proof.
+  intros Hc Hp Hps.
+  destruct (add_subcircuit_gen strip C SC name conns).2 eqn:Eo.
+  2:{ destruct (add_subcircuit_reject strip C SC name conns e Hc Eo) as [_ ->]. done. }
+  revert Eo. unfold add_subcircuit_gen.
+  destruct (existsb _ (elements (dom (c_bbs SC)))); [done|].
+  destruct (existsb _ (elements (dom (c_g SC)))) eqn:Eov; [done|].
+  destruct (existsb _ conns); [done|]. cbv zeta.
+  assert (Hdisj : ∀ n, n ∈ dom (c_g SC) → pre name n ∉ dom (c_g C)).
+  { intros n Hn. assert (Hf : negb (existsb (λ n, bool_decide (pre name n ∈ dom (c_g C))) (elements (dom (c_g SC)))) = true) by (by rewrite Eov).
+    pose proof (negb_existsb_false _ _ Hf n) as H. simpl in H. specialize (H ltac:(by apply elem_of_elements)). by apply bool_decide_eq_false in H. }
+  set (g0 := update_g (c_g C) (rename_g (pre name) (c_g SC))).
+  (* what the final graph must know about types *)
+  set (Q := λ g : circuit, (∀ m t, ty (c_g C) m = Some t → ty g m = Some t) ∧
+                           (∀ n t, t ≠ Input → ty (c_g SC) n = Some t → ty g (pre name n) = Some t)).
+  assert (H0 : Q g0).
+  { split.
+    - intros m t (i & Hi & <-)%ty_Some. unfold ty, g0, update_g. rewrite lookup_union_with.
+      assert (rename_g (pre name) (c_g SC) !! m = None) as ->.
+      { unfold rename_g. apply lookup_kmap_None; [apply _|]. intros n ->. rewrite lookup_fmap.
+        destruct (c_g SC !! n) eqn:E; [|done]. exfalso. eapply Hdisj; apply elem_of_dom; eauto. }
+      by rewrite Hi.
+    - intros n t _ Ht. unfold g0. rewrite splice_ty; [done|apply _|done|]. apply ty_Some in Ht as (i & Hi & _). apply elem_of_dom. eauto. }
+  set (g1 := if strip then set_fold _ g0 (inputs (c_g SC)) else g0).
+  assert (H1 : Q g1).
+  { unfold g1. destruct strip; [|done]. unfold set_fold. simpl. apply (foldr_inv Q); [done|].
+    intros x g Hx%elem_of_elements [Hq1 Hq2]. apply elem_of_inputs in Hx as (i & Hi & Hti).
+    split.
+    - intros m t Ht. rewrite alter_retype_ty. rewrite decide_False; [by apply Hq1|]. intros ->.
+      apply ty_Some in Ht as (j & Hj & _). eapply Hdisj; apply elem_of_dom; eauto.
+    - intros n t Hne Ht. rewrite alter_retype_ty. rewrite decide_False; [by apply Hq2|]. intros Heq%(inj (pre name)). subst n.
+      apply ty_Some in Ht as (j & Hj & <-). congruence. }
+  set (g2 := if strip then set_fold _ g1 (outputs (c_g SC)) else g1).
+  assert (Hty_unmark : ∀ g n m, ty (alter unmark n g) m = ty g m).
+  { intros g n m. unfold ty. destruct (decide (m = n)) as [->|]; [rewrite lookup_alter; by destruct (g !! n)|by rewrite lookup_alter_ne]. }
+  assert (H2 : Q g2).
+  { unfold g2. destruct strip; [|done]. unfold set_fold. simpl. apply (foldr_inv Q); [done|].
+    intros x g _ [Hq1 Hq2]. split; intros; rewrite Hty_unmark; eauto. }
+  set (r := foldl _ (g2, Done) conns).
+  assert (Hr : Q r.1).
+  { apply (foldl_inv (λ st : circuit * outcome, Q st.1)); [done|].
+    intros [g o] [k vs] [Hq1 Hq2]. simpl in *. destruct o; [|done].
+    destruct (bool_decide (k ∈ inputs (c_g SC))); (split; intros; (eapply att_ty; [apply connect_g_att|eauto])). }
+  destruct r as [gr o]. simpl in *. destruct o as [|[]]; simpl; try done. intros _. destruct Hr as [Hq1 Hq2].
+  unfold pins_ok. simpl.
+  apply (map_fold_ind (λ acc (m : gmap string bbdef), (∀ b d, m !! b = Some d → c_bbs SC !! b = Some d) →
+     map_Forall (λ inst d, set_Forall (λ p, pin inst p ∈ R ∨ ty gr (pin inst p) = Some BbIn) (bb_in d) ∧
+                           set_Forall (λ p, pin inst p ∈ R ∨ ty gr (pin inst p) = Some BbOut) (bb_out d)) acc)); [| |done].
+  - intros _. eapply map_Forall_impl; [exact Hp|]. simpl. intros inst d [A1 A2].
+    split; intros p Hp'; [destruct (A1 p Hp') as [?|Hty]|destruct (A2 p Hp') as [?|Hty]]; try (by left); right; by apply Hq1.
+  - intros b d m acc Hmb IH Hsub. apply map_Forall_insert_2.
+    + specialize (Hsub b d (lookup_insert _ _ _)). destruct (Hps b d Hsub) as [A1 A2]. simpl in *.
+      split; intros p Hp'; right; rewrite pin_pre; apply Hq2; try done.
+      * destruct (A1 p Hp') as [?|?]; [set_solver|done].
+      * destruct (A2 p Hp') as [?|?]; [set_solver|done].
+    + apply IH. intros b' d' Hb'. apply Hsub. rewrite lookup_insert_ne; [done|]. intros <-. congruence.
+Qed.
+
+(* pins under every operation except fill_blackbox *)
+Lemma step_pins_nofill C o R : closed (c_g C) → orders_ok o → not_fill o = true →
+  match o with OAddSubcircuit SC _ _ => pins_ok SC ∅ | _ => True end →
+  pins_ok C R → pins_ok (step C o).1 (R ∪ removed_by o).
+Proof.
+  intros Hc Hord Hnf Hsc Hp. destruct o; try discriminate; try (by apply step_pins_basic).
+  - simpl. rewrite (right_id_L ∅ (∪)). destruct Hord. by apply add_blackbox_pins.
+  - simpl. rewrite (right_id_L ∅ (∪)). by apply add_subcircuit_pins.
+Qed.
